@@ -78,6 +78,12 @@ class PosteriorTarget:
         self.b = A(c["pdata"])[:m]
         self.nvar = c["pnvar"]
         mu = A(c["pmean"])[:n] if c["pmean_kind"] == "vector" else np.zeros(n)
+        if c["pmean_kind"] == "zero_sum" and n >= 2:
+            # a non-zero mean whose entries sum to exactly zero
+            mu = np.zeros(n)
+            mu[0], mu[1] = 2.0, -2.0
+            if n >= 4:
+                mu[2], mu[3] = -0.5, 0.5
         self.mu = mu
         var = A(c["pvar"])[:n]
         kind = c["pprior"]
@@ -160,8 +166,13 @@ class Kernel:
             proposed = [p.copy() for p in self.t.calls]
         else:
             s.x0 = np.array(x, dtype=float).copy()
-            with patched_global(rng):
+            if self.c.get("rng_arg") and self.name == "MALA":
+                # the legacy Langevin samplers take an optional generator: the draws then come from it, not from the global stream
+                s.rng = rng
                 S = s.sample(2)
+            else:
+                with patched_global(rng):
+                    S = s.sample(2)
             X = np.asarray(S.samples, dtype=float)
             new = X[:, 1].copy()
             proposed = [p.copy() for p in self.t.calls[1:]]  # calls[0] is the evaluation at x0
@@ -215,7 +226,8 @@ def mh_cases(draw, tier="quick", samplers=("MH", "PCN", "MALA")):
          "history": draw(st.sampled_from(["fresh", "fresh", "warmup", "reload", "rescaled"])), "hseed": draw(st.integers(0, 10 ** 6)),
          "u_mode": draw(st.sampled_from(["above", "below", "generated"])), "delta": draw(st.sampled_from([1e-9, 1e-6, 1e-3, 1e-1])),
          "u": draw(st.floats(1e-6, 1 - 1e-6)), "bad_value": draw(st.sampled_from(["nan", "-inf"])),
-         "int_start": draw(st.sampled_from([False, False, False, True])), "bad_grad": draw(st.sampled_from(["finite", "nan"]))}
+         "int_start": draw(st.sampled_from([False, False, False, True])), "bad_grad": draw(st.sampled_from(["finite", "nan"])),
+         "rng_arg": draw(st.booleans())}
     if c["int_start"]:
         c["x"] = [float(round(v)) for v in c["x"]]
     if sampler == "PCN":
@@ -223,7 +235,7 @@ def mh_cases(draw, tier="quick", samplers=("MH", "PCN", "MALA")):
         c.update(pm=m, pA=draw(gen.mat(4, 5, -1, 1)), pcc=0.5, pmodel=draw(st.sampled_from(["linear", "nonlinear"])),
                  pdata=draw(gen.vec(4, -2, 2)), pnvar=draw(gen.logpos(-1, 0.5)),
                  pprior=draw(st.sampled_from(["gauss_scalar", "gauss_vector", "gauss_matrix", "normal"])),
-                 pmean_kind=draw(st.sampled_from(["zero", "zero", "vector"])), pmean=draw(gen.vec(5, -1, 1)),
+                 pmean_kind=draw(st.sampled_from(["zero", "zero", "vector", "zero_sum"])), pmean=draw(gen.vec(5, -1, 1)),
                  pvar=draw(st.lists(gen.logpos(-0.7, 0.5), min_size=5, max_size=5)), pG=draw(gen.mat(5, 5, -0.4, 0.4)),
                  # the legacy pCN also takes its target as a (likelihood, prior) tuple
                  ptuple=draw(st.booleans()))
@@ -273,6 +285,8 @@ def prepare_subject(K, c, x):
 
 def tags_of(c):
     t = {"sampler": c["sampler"], "interface": c["interface"], "history": c["history"]}
+    if c["sampler"] == "MALA" and c["interface"] == "legacy":
+        t["rng_arg"] = bool(c.get("rng_arg"))
     if c["sampler"] == "PCN":
         t["prior_mean"] = c["pmean_kind"]
         t["target_form"] = "tuple" if (c["interface"] == "legacy" and c.get("ptuple")) else "posterior"
@@ -389,6 +403,27 @@ def run_nonfinite(c, rec):
             require(maxdiff(prop[0], xp) <= 1e-12, "harness: first CWMH candidate is not the expected one")
             require(new[0] == x[0], f"CWMH ({c['interface']}): a component proposal whose target log-density is {c['bad_value']} was accepted (u = {u})",
                     x=x, candidate=xp, new=new)
+            # the rest of the sweep: after the rejected first component the other components are judged from the unchanged state
+            cur, lp_cur, tie = x.copy(), T.f(x), False
+            for j in range(1, n):
+                cand = cur.copy()
+                cand[j] = x[j] + scale * xi[j]
+                lp_c = T.f(cand)
+                if np.isnan(lp_c) or np.isneginf(lp_c):
+                    continue
+                la = min(0.0, lp_c - lp_cur)
+                if abs(np.log(0.5) - la) < 1e-9:
+                    tie = True
+                    break
+                if np.log(0.5) <= la:
+                    cur, lp_cur = cand, lp_c
+            if not tie:
+                require(maxdiff(new, cur) <= 1e-12 * (1 + np.max(np.abs(cur))),
+                        f"CWMH ({c['interface']}): after a component proposal with log-density {c['bad_value']} was rejected, the remaining components of "
+                        "the sweep were not judged from the unchanged state", new=new, reference=cur, x=x)
+                if K.iface == "experimental" and hasattr(s, "current_target_logd"):
+                    got = float(np.asarray(s.current_target_logd).reshape(-1)[0])
+                    require(close(got, T.f(new), 1e-10), "CWMH: the cached log-density does not belong to the state after the sweep", cached=got, true=T.f(new))
         return
     a_x, B_x = measure_proposal(K0, x, scale)
     xp = a_x + B_x @ xi
